@@ -19,6 +19,7 @@ CONSTANTS Sizes,      \* initial sizes; -1 = the file does not exist
           SOffs,      \* seek offsets
           VBufs,      \* setvbuf modes
           VSizes,     \* setvbuf sizes (0 = omitted)
+          MFmts,      \* format lists of the multi-format reads f:read(fmt1, fmt2, ..)
           Extra,      \* names of the argument-less operations in the alphabet
           MaxHist, Naive, Gen
 
@@ -29,8 +30,9 @@ vars == <<st, nv, hist, init>>
 view == <<st, nv, init>>
 genview == <<st, nv, init, Len(hist)>>     \* export: one history per (state, depth) transition
 
-Op(op, a, n) == [op |-> op, a |-> a, n |-> n]
+Op(op, a, n) == [op |-> op, a |-> a, n |-> n, fs |-> <<>>]
 Ops == {Op("open", m, 0) : m \in Modes}
+       \cup {[op |-> "readm", a |-> "", n |-> 0, fs |-> f] : f \in MFmts}
        \cup {Op("read", "", n) : n \in RCounts}
        \cup {Op("write", "", n) : n \in WCounts}
        \cup {Op("seek", w, k) : w \in {"set", "cur", "end"}, k \in SOffs}
@@ -70,8 +72,8 @@ Expand(st0, ds) ==
     ELSE [j \in 1..Head(ds)[4] |-> ByteOf(st0, Head(ds), j - 1)] \o Expand(st0, Tail(ds))
 ExpandRes(st0, e) ==
     IF e[1] = "data" THEN <<"data", Expand(st0, e[2])>>
-    ELSE IF e[1] = "lines"
-         THEN <<"lines", [i \in DOMAIN e[2] |->
+    ELSE IF e[1] \in {"lines", "multi"}
+         THEN <<e[1], [i \in DOMAIN e[2] |->
                    IF e[2][i][1] = "data" THEN <<"data", Expand(st0, e[2][i][2])>> ELSE e[2][i]]>>
     ELSE e
 
@@ -131,12 +133,26 @@ MC_SmallLays == {<<"per", 3>>, <<"crlf", 4>>, <<"at", 2>>, <<"num", 3>>}
 MC_NumLays == {<<"num", 4>>, <<"num", 2>>}
 MC_SmallSizes == {-1, 0, 1, 5}
 MC_SmallSOffs == {-1, 0, 2, 7}
+MC_SmallqSizes == {-1, 5}
+MC_SmallqSOffs == {-1, 0, 2}
 MC_BigLays == {<<"per", 37>>, <<"per", 0>>}
 MC_BigSOffs == {-1, 0, 4096}
-MC_ModesSizes == {-1, 0, 1, 4097}
+MC_ModesSizes == {-1, 1, 4097}
 MC_ModesLays == {<<"per", 37>>}
 MC_LinesLays == {<<"per", 0>>, <<"at", 4095>>, <<"at", 4096>>, <<"crlf", 37>>, <<"per", 4097>>}
 MC_None == {}
+(* format lists *)
+F_c(n) == <<"c", n>>
+F_l == <<"l", 0>>
+F_n == <<"n", 0>>
+F_a == <<"a", 0>>
+MC_SmallFmts == {<<F_c(2), F_a>>, <<F_c(0), F_l, F_c(7)>>, <<F_n, F_c(1), F_a>>}
+MC_Atoms == {F_c(0), F_c(2), F_l, F_n, F_a}
+MC_MultiFmts == {<<x, y>> : x \in MC_Atoms, y \in MC_Atoms} \cup
+                {<<x, y, F_a>> : x \in MC_Atoms, y \in MC_Atoms} \cup
+                {<<F_c(2), F_c(1), x>> : x \in MC_Atoms} \cup
+                {<<F_c(4096), F_c(1), F_a>>, <<F_c(5000), F_a>>, <<F_l, F_c(4096), F_l>>}
+MC_MultiLays == {<<"num", 4>>, <<"per", 37>>}
 MC_AllExtra == {"seek0", "seek1", "getiter", "calliter", "lines", "readline", "readall", "readnum", "flush", "close", "peek"}
 
 (* generation-only filter of the stream-buffer slices: once setvbuf gave a
